@@ -19,7 +19,7 @@ CHECKS = {
          "As C01 with chains: after recovering from a torn batch the continuation re-submits a prefix of it (same sizes) so stale frames of the torn batch sit behind the new commit, then crashes again; low indexes and frame-shaped payloads; recovered state must equal one legal state exactly (nothing fabricated, torn or half-applied).",
          "same as C01", "E1 crashsim", "4 C02"),
  "C03": ("fault_enumeration", "crash-image enumeration + fixed usability continuation after every recovery; strace trace replay of the production stack into power-loss images (incl. first-Open metadata initialisation)",
-         "After recovery of every crash image a fixed continuation (appends forcing rotation, head and tail truncation, stable set/get, clean reopen, append) must succeed and match the model; geometries where nearly every append seals the segment.",
+         "After recovery of every crash image a fixed continuation (appends forcing rotation, head and tail truncation, stable set/get, clean reopen, append) must succeed and match the model; geometries where nearly every append seals the segment; in a third of the continuations the first write after recovery is a tail / head truncation, the retried interrupted truncation or a stable Set instead of an append.",
          "same as C01", "E1 crashsim", "4 C03"),
  "C04": ("fault_enumeration", "crash-image enumeration over truncation-heavy workloads + all-or-nothing oracle",
          "Crash at every boundary inside head/tail/all truncations and the appends that follow; recovered state must be the old or the new state exactly; unique entry ids distinguish generations at reused indexes.",
@@ -28,7 +28,7 @@ CHECKS = {
          "After every acknowledged call of the golden run and after Open on every crash image the directory must hold exactly the files of segments in committed metadata; ID rules (never reused, never below a committed NextSegmentID, no Create of an uncommitted ID) are evaluated at every CommitState/Create over the whole lifetime of a directory including crash generations. Concurrent part: writer vs 2-5 readers under hook perturbation with the listing compared at quiescent points and no open handle allowed on an unlinked file; two pinned readers released in both orders; reader-pinning and failed-Create scripts.",
          "same as C01", "E1 crashsim", "4 C13"),
  "C05": ("exploration", "differential testing against a contiguous-log reference model after every step (exhaustive small-scope + random sequences)",
-         "All sequences to a depth bound over an 18-template alphabet for 12 (segment size, start index) geometries, plus seeded random sequences (some on the real filesystem with BoltDB); after every step the full observable state is compared with the model in the live WAL and in a reopened copy of the directory.",
+         "All sequences to a depth bound over a 20-template alphabet (incl. deletes with max = MaxUint64) for 12 (segment size, start index) geometries, plus seeded random sequences (some on the real filesystem with BoltDB); after every step the full observable state is compared with the model in the live WAL and in a reopened copy of the directory.",
          "harness reference model (README rules); index 0 never used", "E4 model", "4 C05"),
  "C12": ("exploration", "round-trip and aliasing monitors over generated logs, under the race detector",
          "Codec round-trips over varint/size/time boundary classes, decode-input overwrite test, WAL StoreLogs->GetLog round-trips in-process and after reopen, re-comparison of returned logs after concurrent later reads (pooled buffers recycled), and the custom-codec reopen matrix (reserved IDs refused, same codec reopens, foreign codec refused).",
@@ -39,7 +39,7 @@ CHECKS = {
  "C19": ("exploration", "differential copy check over store pairings with deterministic cancellation and fault wrappers",
          "CopyLogs over all pairings of WAL / raft-boltdb v2 / InmemStore for generated sources and batchBytes classes, with cancellation at the n-th call and injected destination errors; CopyStable with standard and extra keys; destination must equal the source (or be a prefix with the context's error), progress channel closed.",
          "raft.InmemStore and raft-boltdb behave as documented", "E4 model", "4 C19"),
- "C20": ("exploration", "recording metrics collector compared with model totals at quiescence; call-site execution gate",
+ "C20": ("exploration", "recording metrics collector compared with model totals at quiescence (incl. sequences where Close beats a queued rotation); call-site execution gate",
          "Random operation sequences with a recording collector: every counter must equal the model's total at quiescence, every emitted name must be declared and must not panic the bundled AtomicCollector; verifier histories reach all verifier metrics; emitting call sites of the current source are enumerated and each must have been executed (else inconclusive).",
          "model totals derived independently (rotations from segment IDs consumed)", "E4 model", "4 C20"),
  "C16": ("exploration", "cluster simulation of the real verifier middleware with ground-truth judging of every delivered report",
@@ -54,13 +54,13 @@ CHECKS = {
  "C06": ("exploration", "history recording at the API boundary + single-writer version-interval linearizability check, cross-checked by porcupine; race detector",
          "One writer (appends with rotation, head/tail truncation, re-append of different content, base-index reset) against 2-8 readers under seeded hook perturbation, plus directed scripts parking a reader in every named window while each writer op kind completes; each read must equal the answer of a version that could have been current during its interval, errors other than not-found only for indexes an overlapping truncation removed, entries only after their batch's fsync completed; any race report with raft-wal frames is a violation.",
          "logical-clock tickets; Go race detector; porcupine v1.3.0", "E2 sched+hist", "4 C06"),
- "C10": ("fault_enumeration", "per-call fault injection (before/after effect, once/sticky, pairs) into re-executed workloads with applied-or-not candidate oracle",
+ "C10": ("fault_enumeration", "per-call fault injection (before/after effect, once/sticky, pairs) into re-executed workloads with applied-or-not candidate oracle; directed shrinking-retry and large-batch (70 KiB - 3 MiB) scripts",
          "Every VFS/MetaStore call of each workload's golden run is made to fail in turn (before effect; after effect for mutating calls; sticky; pairs in thorough); the workload continues with successful operations and a clean reopen; acknowledged entries must stay intact in-process and after reopen, failed appends invisible in-process, every failed call applied in full or not at all after reopen.",
          "simfs/simmeta fault model; refusal of further writes after a fault is not counted", "E1 faults", "4 C10"),
- "C11": ("exploration", "structure-aware corruption of valid directories under panic recovery, a VFS-enforced I/O step budget and an allocation bound",
+ "C11": ("exploration", "structure-aware corruption of valid directories (frame, index, header, metadata and codec length-prefix operators) under panic recovery, a VFS-enforced I/O step budget and an allocation bound",
          "11 file mutation operators and 11 metadata edits over generated directories, then Open + GetLog of everything + DumpLogs + Decode; never panic, never exceed the I/O step budget (logical 'loops forever') or the allocation bound; sealed segment missing / shorter than its header / foreign header must fail Open; a failed Open leaves no VFS handle or meta store open and, on a real directory with BoltDB, a second Open returns; Decode of structurally invalid encodings errors.",
          "single-threaded TotalAlloc deltas; 30s wall-clock watchdog only for pure-CPU loops", "E6 mutate", "4 C11"),
- "C14": ("exploration", "directed schedules through hook points (method x parking point x Close position; late-close scripts where a read spans a state replacement before Close) + stress, outcome classification, race detector",
+ "C14": ("exploration", "directed schedules through hook points (method x parking point x Close position; late-close scripts where a read spans a state replacement before Close; close-after-fault scripts where one VFS/MetaStore call failed earlier) + stress, outcome classification, race detector",
          "Every LogStore/StableStore method parked at every hook point on its path while Close runs (or Close parked while the method runs); results must be correct or ErrClosed, never panic / other error / deadlock (goroutine blocked inside raft-wal after everything was released); after Close: all methods ErrClosed, second Close nil, rotation goroutine exited, no handles open, reopen shows everything acknowledged.",
          "hook points added under build tag verif; 15s watchdog whose expiry is a violation only with the goroutine blocked inside raft-wal", "E2 sched", "4 C14"),
  "C08": ("exploration", "lock-step stable-map model + per-key porcupine register check under concurrency + SIGKILL of child processes on real BoltDB + strace trace replay into power-loss images of wal-meta.db",
